@@ -270,3 +270,84 @@ Theorem C10_inside_spanning_cell_no_border (pre post : list event) :
   Forall wf (contributors post) -> resolve_edge (pre ++ EReset :: post) = strong_null.
 Proof. exact (inside_spanning_cell_no_border pre post). Qed.
 Print Assumptions C10_inside_spanning_cell_no_border.
+
+(* ------------------------------------------------------------------------------------------------ source *)
+(* fixed_table_layout of weasyprint/layout/table.py, REGENERATED from the source on every run (gen/GenTable.v:
+   the statements from the choice of border_spacing_x to the end of the function - the pass over the first-row
+   cells, the equal shares, the distribution of the extra width).  For every table width, border spacing, <col>
+   widths, list of first-row cells (any colspan, width 'auto' or a number) the regenerated statements, started from
+   the list of column widths the statements before them build (fixed_init), never raise and leave in table.width /
+   table.column_widths the value of fixed_layout (the model of the C10_fixed_* theorems above), the numbers up to ==
+   (the source subtracts the known widths one by one and sums from the left); the other attributes of the table
+   are untouched.  resolve_percentages is an oracle that answers the cell with its used width; cell.border_width()
+   is answered by ocall.  A declared width of 0 is a known width (`column_widths[j] is None`). *)
+From Coq Require Import String.
+Require WV.base.Py WV.gen.GenTable WV.proofs.C10_gen_fixed_model WV.proofs.C10_gen_fixed_run WV.proofs.C10_gen_fixed.
+Module GF := WV.proofs.C10_gen_fixed.
+Module GR := WV.proofs.C10_gen_fixed_run.
+Module GM := WV.proofs.C10_gen_fixed_model.
+
+Theorem C10_source_fixed_cells_and_finish
+  (T : Type) (cin : T -> list (string * Py.val)) (rc : T -> GM.rcell) (cextra : T -> list (string * Py.val))
+  (tf sf : list (string * Py.val)) (bc : string) (sx W : Q) (sy : Py.val) (O : Py.qops) (HO : Py.ops_ok O)
+  (Hstyle : Py.lookup "style"%string tf = Py.VObj sf) (Hbc : Py.lookup "border_collapse"%string sf = Py.VStr bc)
+  (Hbs : Py.lookup "border_spacing"%string sf = Py.VList [Py.VNum sx; sy]) (Hw : Py.lookup "width"%string tf = Py.VNum W)
+  (HR : forall t, Py.ocall O "resolve_percentages"%string [Py.VObj (cin t); Py.VObj tf]
+                  = Py.VList [Py.VNone; GR.rcellv T rc cextra t])
+  (HB : forall t v, GM.r_w (rc t) = Some v ->
+                    Py.ocall O ".border_width"%string [GR.rcellv T rc cextra t] = Py.VNum (GM.r_bw (rc t)))
+  (cols : list decl) (cells : list T) :
+  Py.run O GenTable.fixed_cells_finish_body (GF.env0 T cin tf cells (fixed_init W cols (GF.fcells T rc cells)))
+      (fun rho r => r = None /\
+         exists Wm wsm, fixed_layout W (GR.spacing bc sx) cols (GF.fcells T rc cells) = Some (Wm, wsm) /\
+           exists tf' W' ws, Py.lookup "table"%string rho = Py.VObj tf' /\
+             Py.lookup "width"%string tf' = Py.VNum W' /\ Py.lookup "column_widths"%string tf' = Py.VList (map Py.VNum ws) /\
+             W' == Wm /\ Forall2 Qeq ws wsm /\
+             forall x, String.eqb x "width" = false -> String.eqb x "column_widths" = false ->
+                       Py.lookup x tf' = Py.lookup x tf)
+      (fun _ => False).
+Proof. exact (GF.gen_fixed_layout T cin rc cextra tf sf bc sx W sy O HO Hstyle Hbc Hbs Hw HR HB cols cells). Qed.
+Print Assumptions C10_source_fixed_cells_and_finish.
+
+(* the property text about the run of the source: table.width = sum(column widths) + (n + 1) spacings *)
+Theorem C10_source_fixed_sum
+  (T : Type) (cin : T -> list (string * Py.val)) (rc : T -> GM.rcell) (cextra : T -> list (string * Py.val))
+  (tf sf : list (string * Py.val)) (bc : string) (sx W : Q) (sy : Py.val) (O : Py.qops) (HO : Py.ops_ok O)
+  (Hstyle : Py.lookup "style"%string tf = Py.VObj sf) (Hbc : Py.lookup "border_collapse"%string sf = Py.VStr bc)
+  (Hbs : Py.lookup "border_spacing"%string sf = Py.VList [Py.VNum sx; sy]) (Hw : Py.lookup "width"%string tf = Py.VNum W)
+  (HR : forall t, Py.ocall O "resolve_percentages"%string [Py.VObj (cin t); Py.VObj tf]
+                  = Py.VList [Py.VNone; GR.rcellv T rc cextra t])
+  (HB : forall t v, GM.r_w (rc t) = Some v ->
+                    Py.ocall O ".border_width"%string [GR.rcellv T rc cextra t] = Py.VNum (GM.r_bw (rc t)))
+  (cols : list decl) (cells : list T) :
+  Py.run O GenTable.fixed_cells_finish_body (GF.env0 T cin tf cells (fixed_init W cols (GF.fcells T rc cells)))
+      (fun rho r => exists tf' W' ws,
+         Py.lookup "table"%string rho = Py.VObj tf' /\ Py.lookup "width"%string tf' = Py.VNum W' /\
+         Py.lookup "column_widths"%string tf' = Py.VList (map Py.VNum ws) /\
+         List.length ws = Nat.max (List.length cols) (spans (GF.fcells T rc cells)) /\
+         ((0 < List.length ws)%nat \/ W <= GR.spacing bc sx -> W' == qsum ws + GR.spacing bc sx * (qnat (List.length ws) + 1)) /\
+         W <= W')
+      (fun _ => False).
+Proof. exact (GF.gen_fixed_sum T cin rc cextra tf sf bc sx W sy O HO Hstyle Hbc Hbs Hw HR HB cols cells). Qed.
+Print Assumptions C10_source_fixed_sum.
+
+(* any list of column widths known so far (not only the one built from the <col> elements), any cells that fit *)
+Theorem C10_source_fixed_cells_and_finish_any_columns
+  (T : Type) (cin : T -> list (string * Py.val)) (rc : T -> GM.rcell) (cextra : T -> list (string * Py.val))
+  (tf sf : list (string * Py.val)) (bc : string) (sx W : Q) (sy : Py.val) (O : Py.qops) (HO : Py.ops_ok O)
+  (Hstyle : Py.lookup "style"%string tf = Py.VObj sf) (Hbc : Py.lookup "border_collapse"%string sf = Py.VStr bc)
+  (Hbs : Py.lookup "border_spacing"%string sf = Py.VList [Py.VNum sx; sy]) (Hw : Py.lookup "width"%string tf = Py.VNum W)
+  (HR : forall t, Py.ocall O "resolve_percentages"%string [Py.VObj (cin t); Py.VObj tf]
+                  = Py.VList [Py.VNone; GR.rcellv T rc cextra t])
+  (HB : forall t v, GM.r_w (rc t) = Some v ->
+                    Py.ocall O ".border_width"%string [GR.rcellv T rc cextra t] = Py.VNum (GM.r_bw (rc t)))
+  (cells : list T) (cw : list (option Q)) :
+  (GR.spansT T rc cells <= List.length cw)%nat ->
+  Py.run O GenTable.fixed_cells_finish_body (GF.env0 T cin tf cells cw)
+      (fun rho r => r = None /\
+         exists cw1, cells_loop W (GR.spacing bc sx) (GF.fcells T rc cells) cw = Some cw1 /\
+                     GF.model_result tf (Py.lookup "table"%string rho) (fst (fixed_finish W (GR.spacing bc sx) cw1))
+                                     (snd (fixed_finish W (GR.spacing bc sx) cw1)))
+      (fun _ => False).
+Proof. exact (GF.gen_fixed_model T cin rc cextra tf sf bc sx W sy O HO Hstyle Hbc Hbs Hw HR HB cells cw). Qed.
+Print Assumptions C10_source_fixed_cells_and_finish_any_columns.
